@@ -73,6 +73,8 @@ pub enum FromSpec {
     /// table index, optional alias (index into QUALS, >= 3)
     Table(u8, Option<u8>),
     Sub(Box<SelectSpec>, u8),
+    /// reference to a CTE by name (QUALS index 6 or 7), optional alias
+    Cte(u8, Option<u8>),
     /// VALUES list with alias; all rows have the same arity
     Values(Vec<Vec<i64>>, u8),
 }
@@ -130,7 +132,7 @@ pub struct LockSpec {
 
 #[derive(Clone, Debug, PartialEq, Eq, Hash, Serialize, Deserialize)]
 pub struct CteSpec {
-    /// index into QUALS (6 or 7: c1, c2)
+    /// 0 = c1, 1 = c2
     pub name: u8,
     pub cols: Vec<u8>,
     pub materialized: Option<bool>,
@@ -294,6 +296,8 @@ fn table_ref(f: &FromSpec) -> Option<TableRef> {
     match f {
         FromSpec::Table(t, None) => Some(al(TABLES[*t as usize % 3]).into_table_ref()),
         FromSpec::Table(t, Some(a)) => Some(al(TABLES[*t as usize % 3]).into_table_ref().alias(al(QUALS[*a as usize % 8]))),
+        FromSpec::Cte(c, None) => Some(al(QUALS[6 + *c as usize % 2]).into_table_ref()),
+        FromSpec::Cte(c, Some(a)) => Some(al(QUALS[6 + *c as usize % 2]).into_table_ref().alias(al(QUALS[*a as usize % 8]))),
         _ => None,
     }
 }
@@ -303,7 +307,7 @@ pub fn build_with(w: &WithSpec, d: Dialect) -> WithClause {
     wc.recursive(w.recursive);
     for c in &w.ctes {
         let mut cte = CommonTableExpression::new();
-        cte.table_name(al(QUALS[c.name as usize % 8]));
+        cte.table_name(al(QUALS[6 + c.name as usize % 2]));
         for col in &c.cols {
             cte.column(al(QCOLS[*col as usize % 5]));
         }
@@ -368,7 +372,7 @@ pub fn build_select(s: &SelectSpec, d: Dialect) -> SelectStatement {
     }
     for f in &s.from {
         match f {
-            FromSpec::Table(..) => {
+            FromSpec::Table(..) | FromSpec::Cte(..) => {
                 q.from(table_ref(f).unwrap());
             }
             FromSpec::Sub(sub, a) => {
@@ -390,7 +394,7 @@ pub fn build_select(s: &SelectSpec, d: Dialect) -> SelectStatement {
             JoinKind::Cross => JoinType::CrossJoin,
         };
         match &j.src {
-            FromSpec::Table(..) => {
+            FromSpec::Table(..) | FromSpec::Cte(..) => {
                 q.join(kind, table_ref(&j.src).unwrap(), j.on.build(d));
             }
             FromSpec::Sub(sub, a) => {
